@@ -17,7 +17,7 @@ Record Inv (s : st) : Prop := {
   inv_ids   : NoDup (ids_of (meta s));
   inv_le    : forall n i, In (n, i) (meta s) -> i_id i <= seq s;
   inv_par   : forall n i, In (n, i) (meta s) -> parent_ok (meta s) i;
-  inv_dirs  : forall d, In d (dirs s) -> exists id, d = DId id /\ id <= seq s;
+  inv_dirs  : forall id, In (DId id) (dirs s) -> id <= seq s;
   inv_has   : closed s = false -> forall n i, In (n, i) (meta s) -> In (DId (i_id i)) (dirs s);
   inv_mnd   : NoDup (map fst (mounts s));
   inv_mle   : forall x, In x (mounts s) -> fst x <= seq s
@@ -197,7 +197,7 @@ Proof.
     - intros id H _. apply D1. split; auto. unfold td. discriminate.
     - intros x H _. rewrite M1. exact H.
     - apply selfd_pair. discriminate.
-    - repeat constructor. }
+    - apply ct_cons; [exact I|discriminate|apply ct_nil]. }
   destruct (meta_create s1 k key parent) as [e0|sn] eqn:MC.
   { intros H; inversion H; subst. exact simple. }
   destruct (negb match sn_parents sn with [] => true | p :: _ => has_dir s1 (DId p) end).
@@ -217,7 +217,7 @@ Proof.
   - apply selfd_app.
     + apply selfd_pair. discriminate.
     + apply selfd_pair. intros _. exists (sn_id sn). split; auto. rewrite ID. lia.
-  - repeat constructor.
+  - apply ct_cons; [exact I|discriminate|apply ct_cons; [exact I|intros _; eauto|apply ct_nil]].
 Qed.
 
 (* ---------- preservation: createSnapshot success ---------- *)
@@ -245,10 +245,10 @@ Proof.
       * destruct (Nat.eqb_spec key p); auto. subst. congruence.
       * apply lookup_in in LP. apply inv_le0 in LP. lia.
     + apply parent_ok_cons; auto. eapply inv_par0; eauto.
-  - intros d [F|F].
-    + exists (S (seq s)). split; auto.
-    + apply rm_dirent_in in F. destruct F as [[F|F] N]; [congruence|].
-      destruct (inv_dirs0 d F) as [id [Q Le]]. exists id. split; auto.
+  - intros id [F|F].
+    + inversion F. lia.
+    + apply rm_dirent_in in F. destruct F as [[F|F] N]; [discriminate|].
+      apply inv_dirs0 in F. lia.
   - intros _ n i [F|F].
     + injection F as Q1 Q2; subst n i. simpl. left. reflexivity.
     + right. apply rm_dirent_in. split; [right; eapply inv_has0; eauto|]. unfold fresh_dir. discriminate.
